@@ -49,6 +49,18 @@ CLAIMED = {
              'relabelings, shuffled construction.',
         note=_COMMON_NOTE + 'networkx ancestors/descendants/all_simple_paths/topological sorts are assumed to agree with the '
                             'definitional model; measured exhaustively on the small universes.'),
+    'C11': dict(
+        technique='Lean 4 proof (boolean d-separation procedure = path-blocking definition for every edge list; minimal '
+                  'separators characterised) with differential correspondence against networkx, exhaustive on small DAGs',
+        text='Theorems: is_d_separated (sets, after argument coercion and the DAG/presence assertions) is true iff every path '
+             'between X and Y is blocked by Z (non-collider in Z, or collider with no descendant-or-self in Z); '
+             'is_minimally_d_separated iff Z separates and no element can be dropped; symmetry; coercion facts; the '
+             'assertions of get_d_separation_set. Lane: every labelled DAG <= 4 nodes + sampled 5-node DAGs (quick) / all '
+             '29 281 DAGs on 5 nodes (thorough), all pairs, all conditioning subsets, three argument forms; '
+             'get_d_separation_set validated by predicate.',
+        note=_COMMON_NOTE + 'networkx d_separated / minimal_d_separator / is_minimal_d_separator are assumed to compute the '
+                            'definitional notions (measured exhaustively); with networkx 3.2.1 is_minimal_d_separator already '
+                            'checks separation, so the extra conjunct in the code is exercised with a 3.1-style stand-in.'),
     'C12': dict(
         technique='Lean 4 proof (regex executed by hand in priority order: parse/format round trip for all names and lags) with '
                   'differential correspondence against re and the graph lookups',
@@ -57,11 +69,20 @@ CLAIMED = {
              'satisfy parse(identifier) = (variable, lag) after every history (WF.tsName). The pattern text is re-extracted '
              'from utils.py each run; the Unicode digit table is regenerated from the running interpreter.',
         note=_COMMON_NOTE + 'CPython\'s 4300-digit int limit is not modelled.'),
+    'C20': dict(
+        technique='Lean 4 proof (Markov boundary shields and is minimal, against the same d-separation definition as C11; '
+                  'collider characterisation) with differential correspondence, exhaustive on small graphs',
+        text='Theorems: identify_markov_boundary = parents, children, co-parents; conditioning on it d-separates the node from '
+             'every other node (needs only no 2-cycles) and no member can be dropped; for a Skeleton exactly the neighbours; '
+             'identify_colliders = nodes with >= 2 arrowhead-sending neighbours (directed or bidirected, either stored '
+             'orientation), unshielded variant = those pairwise non-adjacent; error classes. Lane: all DAGs <= 5 nodes, all '
+             'mixed graphs on 3 nodes, sampled on 4-5.',
+        note=_COMMON_NOTE),
 }
 
 _P = 'check under construction in this round (model/lane/theorems not yet integrated); not claimed until its central theorem is proved and its lane is clean'
-NOT_CLAIMED = {k: _P for k in ['C04', 'C05', 'C06', 'C07', 'C08', 'C09', 'C11', 'C13', 'C14', 'C15', 'C16', 'C17', 'C18',
-                               'C19', 'C20']}
+NOT_CLAIMED = {k: _P for k in ['C04', 'C05', 'C06', 'C07', 'C08', 'C09', 'C13', 'C14', 'C15', 'C16', 'C17', 'C18',
+                               'C19']}
 
 try:
     import subprocess
